@@ -26,7 +26,10 @@ KnownTransitions == {1, 2, 3, 4}
 LE32(n) == <<n % 256, (n \div 256) % 256, (n \div 65536) % 256, 0>>      \* n < 2^24
 
 \* wire form: security header, preamble, body
-ErrorAlertBody(code, tr) == LE32(code) \o LE32(tr) \o EncU16LE(4) \o EncU16LE(0)      \* empty BB_ERROR_BLOB
+\* the error alert ends with a licensing binary blob; when its length is 0 its type field is to be ignored
+\* (MS-RDPBCGR 2.2.1.12.1.2): deployed servers send BB_ERROR_BLOB (4), BB_ANY_BLOB (0) or whatever was in the buffer
+ErrorAlertBodyT(code, tr, bt) == LE32(code) \o LE32(tr) \o EncU16LE(bt) \o EncU16LE(0)
+ErrorAlertBody(code, tr) == ErrorAlertBodyT(code, tr, 4)
 OtherBody(n) == [i \in 1..n |-> (i * 7) % 256]
 UserData(sec, mt, pf, body) == EncU16LE(sec) \o <<0, 0>> \o <<mt, pf>> \o EncU16LE(4 + Len(body)) \o body
 
